@@ -228,3 +228,60 @@ def one(op, p=None, user="alice", groups=None, ver=(1, 2), bid="", **kw):
            "items": [{"op": op, "bid": bid, "p": p or {}}]}
     req.update(kw)
     return req
+
+
+class SessionDriver(EngineDriver):
+    """Like EngineDriver, but every request travels over a persistent connection (one KmipSession per user, identity
+    from the client certificate's common name): what comes back is what the CLIENT receives."""
+
+    def __init__(self, *a, **kw):
+        self.conns = {}
+        super(SessionDriver, self).__init__(*a, **kw)
+
+    def start(self):
+        self.conns = {}
+        return super(SessionDriver, self).start()
+
+    def connection(self, user):
+        from . import sessdrv as S
+        if user not in self.conns:
+            self.conns[user] = S.Connection(self.engine, S.make_cert(1, "client", cn=user))
+        return self.conns[user]
+
+    def send(self, req):
+        """Raw exchange: (frames sent by the session, request bytes)."""
+        msg = A.build_request(req, self.intern, now=int(CLOCK.now))
+        kv = A.KV(tuple(req.get("ver", (1, 2))))
+        data = A.encode(msg) if kv is None else A.encode(msg, kv)
+        return self.connection(req.get("user")).exchange(data), data
+
+    def request(self, req, raw=False):
+        if req.get("groups") is not None:
+            raise common.MachineryFailure("SessionDriver: certificate identities carry no groups")
+        ver = tuple(req.get("ver", (1, 2)))
+        try:
+            sent, data = self.send(req)
+        except Exception as e:
+            out = {"kind": "unsendable", "exc": type(e).__name__, "msg": str(e), "items": [], "count": 0,
+                   "ver": list(ver), "reason": "", "msgc": ""}
+            return (out, None) if raw else out
+        if len(sent) != 1:
+            out = {"kind": "raised", "exc": "NoSingleResponse", "reason": "", "msg": "%d responses" % len(sent),
+                   "msgc": "Other", "items": [], "count": 0, "ver": list(ver)}
+            return (out, None) if raw else out
+        try:
+            resp = A.decode_response(sent[0])
+        except Exception as e:
+            out = {"kind": "raised", "exc": "UndecodableResponse", "reason": "", "msg": "%s: %s" % (type(e).__name__, e),
+                   "msgc": "Other", "items": [], "count": 0, "ver": list(ver)}
+            return (out, sent[0]) if raw else out
+        out = A.abs_response(resp, self.intern)
+        out["nbytes"] = len(sent[0])
+        its = out.get("items", [])
+        if len(its) == 1 and not its[0].get("op") and its[0].get("status") != "Success":
+            # the session's form of a request-level error (what the engine raises as KmipError, or what the session itself
+            # decides: Response Too Large, Invalid Message ...): one failed item without operation
+            out = {"kind": "raised", "exc": "KmipError", "reason": its[0].get("reason", ""), "msg": its[0].get("msg", ""),
+                   "msgc": its[0].get("mc", "") or A.msg_class(its[0].get("msg", "")), "items": [], "count": 0,
+                   "ver": out.get("ver", list(ver)), "nbytes": len(sent[0])}
+        return (out, sent[0]) if raw else out
